@@ -130,7 +130,10 @@ class Field:
         self.byte_order = byte_order  # None | 'BigEndian' | 'LittleEndian'
         self.dyn_count = dyn_count    # None | name of the length field (array count = value of that field)
         self.dyn_offset = dyn_offset  # None | name of the field added to the static offset
-        self.virtual = virtual        # None | ('alias', target) | ('expr', text, fn(values)->int, deps)
+        self.virtual = virtual        # None | ('alias', target) | ('expr', text, fn(values)->int, deps, writable)
+        #                               | ('bool', text, fn(values)->bool, deps, False)
+        self.layout = False           # virtual field whose value is used by the location / size /
+        #                               existence condition of another field of the struct
         self.anonymous_bits = anonymous_bits  # None | StructT (kind 'bits') for `N [+k] bits:`
 
     def deps(self):
@@ -156,9 +159,9 @@ class StructT:
         for f in self.fields:
             if f.virtual:
                 continue
-            top = f.offset + (MAXDYN if f.dyn_offset else 0)
+            top = f.offset + (DYN_BOUND if f.dyn_offset else 0)
             if f.dyn_count:
-                top += f.size * MAXDYN
+                top += f.size * DYN_BOUND
             else:
                 top += f.size
             m = max(m, top)
@@ -169,6 +172,7 @@ class StructT:
 
 
 MAXDYN = 5
+DYN_BOUND = 48      # upper bound of any value used as a dynamic offset / count (tags ≤ MAXDYN, `let`s ≤ 5*3*3)
 
 
 def ftype_emb(ft, in_bits):
@@ -194,7 +198,12 @@ def struct_emb(st):
     for f in st.fields:
         ind = "  "
         if f.cond:
-            out.append("  if %s == %d:" % f.cond)
+            if f.cond[1] is True:
+                out.append("  if %s:" % f.cond[0])
+            elif f.cond[1] is False:
+                out.append("  if %s == false:" % f.cond[0])
+            else:
+                out.append("  if %s == %d:" % f.cond)
             ind = "    "
         if f.virtual:
             if f.virtual[0] == "alias":
@@ -291,9 +300,11 @@ def gen_byte_scalar(r, enums):
     return Scalar(k, r.choice([8, 8, 16, 24, 32, 40, 64, 64]))
 
 
-def gen_struct(r, name, enums, fixed_structs, bits_types, allow_dynamic=True, nfields=None):
+def gen_struct(r, name, enums, fixed_structs, bits_types, allow_dynamic=True, nfields=None, focus=None):
     """fixed_structs: previously generated structs with a fixed size (usable as members and
-    array elements)."""
+    array elements).  focus="deps": a struct about dependency shapes — tags, `let`s that layout
+    goes through, conditional and dynamically placed fields, declared in arbitrary order."""
+    deps_focus = focus == "deps"
     fields, pos = [], 0
     nfields = nfields or r.randint(1, 7)
     tags = []      # names of small UInt:8 fields usable as tag / length / offset
@@ -310,7 +321,7 @@ def gen_struct(r, name, enums, fixed_structs, bits_types, allow_dynamic=True, nf
     def order(sz_bytes):
         return r.choice([None, None, "BigEndian", "LittleEndian"]) if sz_bytes > 0 else None
 
-    if allow_dynamic and r.random() < 0.75:
+    if allow_dynamic and (deps_focus or r.random() < 0.75):
         for _ in range(r.randint(1, 2)):
             nm = fname("n")
             fields.append(Field(nm, ("scalar", Scalar("uint", 8)), pos, 1, attr=r.choice([None] * 9 + ["Skip", "Emit"])))
@@ -318,14 +329,72 @@ def gen_struct(r, name, enums, fixed_structs, bits_types, allow_dynamic=True, nf
             tags.append(nm)
             uints.append((nm, 8))
             pos += 1
+    # layout virtuals: `let` fields computed from the tags (or from another layout virtual) that
+    # the locations / sizes / existence conditions of physical fields go through.  Kinds follow
+    # write_inference.py: alias and `x + k` of a writable field are writable (ordinary text
+    # fields), `x * k` and comparisons are read-only (comments only).
+    lay_int, lay_bool = [], []       # [(name, max value)], [name]
+    layout_fields = []
+    if tags and (deps_focus or r.random() < 0.65):
+        writable = {t: True for t in tags}
+        vmax = {t: MAXDYN for t in tags}
+        for _ in range(r.randint(1, 3)):
+            src = r.choice(tags + [n for n, _ in lay_int]) if r.random() < 0.35 else r.choice(tags)
+            style = r.choice(["mul", "add", "alias", "bool", "bool"])
+            if style in ("mul", "add") and vmax[src] > MAXDYN * 2:
+                style = "alias"
+            at = r.choice([None] * 5 + ["Skip", "Emit"])
+            if style == "bool":
+                nm = fname("lb")
+                c = r.randint(0, 2)
+                if r.random() < 0.5:
+                    virt = ("bool", "%s > %d" % (src, c), (lambda vals, s=src, c=c: vals[s] > c), [src], False)
+                else:
+                    virt = ("bool", "%s == %d" % (src, c), (lambda vals, s=src, c=c: vals[s] == c), [src], False)
+                f = Field(nm, None, 0, 0, virtual=virt, attr=at)
+                lay_bool.append(nm)
+            elif style == "alias":
+                nm = fname("la")
+                f = Field(nm, None, 0, 0, virtual=("alias", src), attr=at)
+                writable[nm], vmax[nm] = writable[src], vmax[src]
+                lay_int.append((nm, vmax[nm]))
+            elif style == "add":
+                nm = fname("lv")
+                k = r.randint(1, 3)
+                f = Field(nm, None, 0, 0, attr=at,
+                          virtual=("expr", "%s + %d" % (src, k), (lambda vals, s=src, k=k: vals[s] + k), [src],
+                                   writable[src]))
+                writable[nm], vmax[nm] = writable[src], vmax[src] + k
+                lay_int.append((nm, vmax[nm]))
+            else:
+                nm = fname("lv")
+                k = r.randint(2, 3)
+                f = Field(nm, None, 0, 0, attr=at,
+                          virtual=("expr", "%s * %d" % (src, k), (lambda vals, s=src, k=k: vals[s] * k), [src], False))
+                writable[nm], vmax[nm] = False, vmax[src] * k
+                lay_int.append((nm, vmax[nm]))
+            f.layout = True
+            layout_fields.append(f)
+            fields.append(f)
+
+    def pick_cond():
+        """Existence condition on a tag, or through a layout virtual."""
+        if lay_bool and r.random() < 0.5:
+            return (r.choice(lay_bool), r.random() < 0.8)
+        if lay_int and r.random() < 0.3:
+            return (r.choice(lay_int)[0], r.randint(0, 4))
+        return (r.choice(tags), r.randint(0, 2))
+
     for _ in range(nfields):
         kind = r.choice(["scalar", "scalar", "scalar", "bits", "struct", "array", "array", "anon", "virtual", "cond"])
+        if deps_focus and r.random() < 0.4:
+            kind = "cond"
         cond = None
         if kind == "cond":
             if not tags:
                 kind = "scalar"
             else:
-                cond = (r.choice(tags), r.randint(0, 2))
+                cond = pick_cond()
                 kind = r.choice(["scalar", "array", "struct"])
         if kind == "scalar":
             sc = gen_byte_scalar(r, enums)
@@ -396,9 +465,11 @@ def gen_struct(r, name, enums, fixed_structs, bits_types, allow_dynamic=True, nf
                 uints.append((nm, 8))
             pos += 1
     static_size = pos
-    if allow_dynamic and tags and r.random() < 0.8:
-        style = r.choice(["bytes", "bytes", "wide", "struct", "offset"])
+    if allow_dynamic and tags and (deps_focus or r.random() < 0.8):
+        style = r.choice(["bytes", "bytes", "wide", "struct", "offset", "offset"])
         ln = r.choice(tags)
+        if lay_int and r.random() < (0.85 if deps_focus else 0.6):
+            ln = r.choice(lay_int)[0]        # location / size through a `let`
         if style == "offset":
             sc = Scalar("uint", 8)
             fields.append(Field(fname("x"), ("scalar", sc), pos, 1, dyn_offset=ln, attr=attr()))
@@ -416,9 +487,19 @@ def gen_struct(r, name, enums, fixed_structs, bits_types, allow_dynamic=True, nf
             fields.append(f)
     # the dependency ordering is exercised by declaring the tag/length fields *after* their
     # users (offsets are explicit, so the layout is unchanged)
-    if tags and r.random() < 0.45:
+    # — and, more generally, by declaring the fields in an arbitrary source order: inputs after
+    # the `let`s computed from them, `let`s after the physical fields located through them, …
+    shape = r.random()
+    if deps_focus:
+        shape = 0.3 + 0.4 * shape        # always re-ordered: reversed or shuffled
+    if tags and shape < 0.3:
         fields = [f for f in fields if not getattr(f, "small", False)] + \
                  [f for f in fields if getattr(f, "small", False)]
+    elif shape < 0.45:
+        fields = fields[::-1]
+    elif shape < 0.7:
+        fields = list(fields)
+        r.shuffle(fields)
     st = StructT(name, "struct", fields, static_size)
     return st
 
@@ -431,7 +512,10 @@ def gen_module(r, name, size="normal"):
     nst = r.randint(3, 5)
     for i in range(nst):
         dyn = i >= 1 and r.random() < 0.7
-        st = gen_struct(r, "%sSt%d" % (name.capitalize(), i), enums, fixed, bits_types, allow_dynamic=dyn)
+        focus = "deps" if i == nst - 1 else None
+        st = gen_struct(r, "%sSt%d" % (name.capitalize(), i), enums, fixed, bits_types,
+                        allow_dynamic=dyn or focus is not None, nfields=r.randint(2, 5) if focus else None,
+                        focus=focus)
         types.append(st)
         if st.is_fixed() and not any(f.cond for f in st.fields) and st.static_size <= 24:
             fixed.append(st)
@@ -449,7 +533,6 @@ class Built:
         self.emitted_paths = set()     # paths of leaves whose text must be present
         self.tree = None
         self.flags = set()             # narrow predicates of known findings that hold for this buffer
-        self.anon_skip_names = set()   # names of anonymous-bits subfields marked Skip (top level of this struct)
 
 
 def put_bits(buf, byte_off, nbytes, order, raw):
@@ -465,8 +548,6 @@ def build_bits_value(r, bt, emitted, path, built, values_out):
         sc = g.ftype[1]
         v = sc.pick(r)
         values_out[g.name] = v
-        if sc.kind == "enum" and sc.enum.signed and v < 0 and g.size < bt.static_size and emitted and g.attr != "Skip":
-            built.flags.add("negative-signed-enum-in-wider-bits-container")
         raw |= sc.raw(v) << g.offset
         em = emitted and g.attr != "Skip"
         built.dump.append((path + g.name, sc.dump(v)))
@@ -534,6 +615,57 @@ def build_array(r, elem, count, order, default_order, buf_off, emitted, path, bu
     return ("array", items)
 
 
+
+def field_by_name(st):
+    by = {}
+    for f in st.fields:
+        by[f.name] = f
+        if f.anonymous_bits is not None:
+            for g in f.anonymous_bits.fields:
+                by[g.name] = g
+    return by
+
+
+def virtual_writable(st, f):
+    """write_inference.py: an alias of a writable field and `x + k` of a writable field are
+    writable; everything else (`x * k`, comparisons) is read-only."""
+    by = field_by_name(st)
+    while f.virtual:
+        if f.virtual[0] == "bool" or (f.virtual[0] == "expr" and not f.virtual[4]):
+            return False
+        src = f.virtual[1] if f.virtual[0] == "alias" else f.virtual[3][0]
+        f = by[src]
+    return True
+
+
+def physical_sources(st, name, seen=None):
+    """Names of the physical fields a field's value is computed from (the field itself when it
+    is physical)."""
+    by = field_by_name(st)
+    seen = seen if seen is not None else set()
+    if name in seen or name not in by:
+        return set()
+    seen.add(name)
+    f = by[name]
+    if not f.virtual:
+        return {name}
+    out = set()
+    for d in f.deps():
+        out |= physical_sources(st, d, seen)
+    return out
+
+
+def mark_sources_written(st, f, base, built):
+    """A writable virtual field in the text writes the bytes of its physical source."""
+    for src in physical_sources(st, f.name):
+        for g in st.fields:
+            if g.name == src and not g.virtual and g.anonymous_bits is None:
+                o = base + g.offset
+                for i in range(g.size):
+                    if built.mask[o + i] == "Z":
+                        built.mask[o + i] = "E"
+
+
 def build_struct(r, st, default_order, base, emitted, path, built, size_out=None):
     """Encodes a random value of struct `st` at byte offset `base`.  Returns the ordered
     list [(field name, node)] of fields the text must contain *in source order*; the caller
@@ -543,6 +675,15 @@ def build_struct(r, st, default_order, base, emitted, path, built, size_out=None
     for f in st.fields:
         if getattr(f, "small", False):
             values[f.name] = r.randint(0, MAXDYN) if r.random() < 0.9 else r.choice([0, 1, 2])
+    # then the `let`s that layout goes through (inputs are tags or other such `let`s)
+    pending = [f for f in st.fields if f.virtual and f.layout]
+    while pending:
+        ready = [f for f in pending if all(d in values for d in f.deps())]
+        if not ready:
+            raise AssertionError("layout virtuals of %s do not resolve" % st.name)
+        for f in ready:
+            values[f.name] = values[f.virtual[1]] if f.virtual[0] == "alias" else f.virtual[2](values)
+            pending.remove(f)
     tree = []
     top = st.static_size
     for f in st.fields:
@@ -561,11 +702,6 @@ def build_struct(r, st, default_order, base, emitted, path, built, size_out=None
             vals = {}
             raw, sub, full = build_bits_value(r, bt, emitted, path, built, vals)
             values.update(vals)
-            if emitted:
-                for g in bt.fields:
-                    if g.attr == "Skip":
-                        built.flags.add("skip-on-anonymous-bits-subfield-ignored")
-                        built.anon_skip_names.add(g.name)
             put_bits(built.buf, base + f.offset, f.size, default_order, raw)
             for i in range(f.size):
                 if emitted:
@@ -611,23 +747,15 @@ def build_struct(r, st, default_order, base, emitted, path, built, size_out=None
         if f.virtual[0] == "alias":
             tgt = f.virtual[1]
             if tgt in values and em:
-                tree.append((f.name, ("scalar", Scalar("uint", 64), values[tgt])))
-                # the alias writes its target's bytes
-                for g in st.fields:
-                    if g.name == tgt and not g.virtual:
-                        o = base + g.offset
-                        for i in range(g.size):
-                            if built.mask[o + i] == "Z":
-                                built.mask[o + i] = "E"
+                if virtual_writable(st, f):
+                    tree.append((f.name, ("scalar", Scalar("uint", 64), values[tgt])))
+                    mark_sources_written(st, f, base, built)
+                else:
+                    tree.append((f.name, ("comment", values[tgt])))
         elif em and all(d in values for d in f.virtual[3]):
-            if f.virtual[4]:
+            if f.virtual[0] == "expr" and virtual_writable(st, f):
                 tree.append((f.name, ("scalar", Scalar("int", 64), f.virtual[2](values))))
-                for g in st.fields:
-                    if g.name in f.virtual[3] and not g.virtual:
-                        o = base + g.offset
-                        for i in range(g.size):
-                            if built.mask[o + i] == "Z":
-                                built.mask[o + i] = "E"
+                mark_sources_written(st, f, base, built)
             else:
                 tree.append((f.name, ("comment", f.virtual[2](values))))
     if size_out is not None:
@@ -657,17 +785,27 @@ def skip_locates_emitted(st, seen=None):
     if st.name in seen:
         return False
     seen.add(st.name)
-    by_name = {f.name: f for f in st.fields}
+    by_name = field_by_name(st)
+
+    def unwritten_skip_source(name, visiting):
+        """The value of field `name` is needed to lay out an emitted field.  True when the text
+        cannot establish it before: a physical field marked Skip, or a virtual field that is not
+        itself written (read-only, or marked Skip) and is computed from such a field."""
+        if name not in by_name or name in visiting:
+            return False
+        d = by_name[name]
+        if not d.virtual:
+            return d.attr == "Skip"
+        if d.attr != "Skip" and virtual_writable(st, d):
+            return False            # written as an ordinary field, before its dependants
+        return any(unwritten_skip_source(x, visiting | {name}) for x in d.deps())
+
     for f in st.fields:
-        if f.anonymous_bits is not None:
-            for g in f.anonymous_bits.fields:
-                by_name[g.name] = g
-    for f in st.fields:
-        if f.attr == "Skip":
+        if f.attr == "Skip" or f.virtual:
             continue
         for d in ([f.cond[0]] if f.cond else []) + ([f.dyn_count] if f.dyn_count else []) + \
                 ([f.dyn_offset] if f.dyn_offset else []):
-            if d in by_name and by_name[d].attr == "Skip":
+            if unwritten_skip_source(d, frozenset()):
                 return True
         if f.virtual is None and f.ftype is not None:
             ft = f.ftype
@@ -679,11 +817,31 @@ def skip_locates_emitted(st, seen=None):
 
 
 def intended_deps(st):
-    """{field name: [names it depends on]} for emission-order checking."""
+    """{field name: [names it depends on directly]}, read off the source text the generator
+    wrote: the tag of an existence condition, the names in a location / size, the names in a
+    `let` expression."""
     out = {}
     for f in st.fields:
         out[f.name] = f.deps()
         if f.anonymous_bits is not None:
             for g in f.anonymous_bits.fields:
-                out[g.name] = [f.name]   # alias of a sub-field of the anonymous field
+                out[g.name] = [f.name] + ([f.cond[0]] if f.cond else [])
+    return out
+
+
+def transitive_deps(st):
+    """{field name: set of all fields it depends on, directly or through other fields (virtual
+    ones included)} — the relation of the property statement "fields are emitted after the
+    fields they depend on", computed from the source alone."""
+    direct = intended_deps(st)
+    out = {}
+    for n in direct:
+        seen, todo = set(), list(direct[n])
+        while todo:
+            d = todo.pop()
+            if d in seen:
+                continue
+            seen.add(d)
+            todo.extend(direct.get(d, []))
+        out[n] = seen
     return out
